@@ -198,10 +198,13 @@ def _shard_worker(args):
                 # counted as inconclusive (never as a violation); properties about termination (C09, C11, C17) carry
                 # their own, much shorter, alarms inside execute() and report those as violations themselves
                 old = signal.signal(signal.SIGALRM, _case_alarm)
-                signal.alarm(int(os.environ.get("VERIF_CASE_TIMEOUT", str(getattr(mod, "CASE_TIMEOUT", 300)))))
+                # (an interval timer: if the first expiry lands inside a callback that swallows exceptions - Hypothesis's
+                # gc hook does - the alarm fires again a second later)
+                signal.setitimer(signal.ITIMER_REAL, float(os.environ.get("VERIF_CASE_TIMEOUT", str(getattr(mod, "CASE_TIMEOUT", 300)))), 1.0)
                 try:
                     outcome = mod.execute(case)
                 except _CaseTimeout:
+                    signal.setitimer(signal.ITIMER_REAL, 0)
                     col.record(case, dict(failures=[], nontrivial=False, classes=["case_timeout_inconclusive"]))
                     col.extra.setdefault("timed_out_cases", [])
                     if len(col.extra["timed_out_cases"]) < 3:
@@ -213,7 +216,7 @@ def _shard_worker(args):
                     )
                     return
                 finally:
-                    signal.alarm(0)
+                    signal.setitimer(signal.ITIMER_REAL, 0)
                     signal.signal(signal.SIGALRM, old)
                 col.record(case, outcome)
 
